@@ -53,11 +53,7 @@ def run(ctx: common.Ctx):
 
   rng = ctx.rng
   lines, checks = [], []
-  # the model of the two matrices method='blockwise' passes to numpy.linalg.inv (present once the bridge
-  # theorems blockwise_is_resolvent* are merged)
   import os
-  _src = os.path.join(common.LEAN, 'Dino', 'Implicit.lean')
-  has_blockmat = os.path.exists(_src) and 'blockwiseDivMatrix' in open(_src).read()
 
   def add(line, op, inp, impl, kind='vec'):
     lines.append(line)
@@ -164,12 +160,12 @@ def run(ctx: common.Ctx):
               inp, exp, 'col')
         else:
           dinv, tpinv = captured[0][1][l], captured[1][1][l]
-          if has_blockmat:
-            # the hypotheses of blockwise_is_resolvent are about exactly these two matrices: what the code handed
-            # to numpy.linalg.inv must be the model's I - M[div,tp] @ M[tp,div] and I - M[tp,div] @ M[div,tp]
-            for which, (a_in, _r) in zip(('div', 'tp'), captured[:2]):
-              add(f'implicit F blockmat {which} {fbits(eta)} {fbits(lam_all[l])} {fbits(R)} {common_args}',
-                  f'implicit_inverse[blockwise].inverted-matrix[{which}]', dict(base, l=l, which=which), a_in[l], 'mat')
+          # the hypotheses of blockwise_is_resolvent are about exactly these two matrices: what the code handed
+          # to numpy.linalg.inv must be the model's I - M[div,tp] @ M[tp,div] and I - M[tp,div] @ M[div,tp]
+          # (model op `blockmat`; unconditional: a driver without the op answers bad-op = correspondence break)
+          for which, (a_in, _r) in zip(('div', 'tp'), captured[:2]):
+            add(f'implicit F blockmat {which} {fbits(eta)} {fbits(lam_all[l])} {fbits(R)} {common_args}',
+                f'implicit_inverse[blockwise].inverted-matrix[{which}]', dict(base, l=l, which=which), a_in[l], 'mat')
           add(f'implicit F invblock {fbits(eta)} {fbits(lam_all[l])} {fbits(R)} {common_args} {fmat(dinv)} {fmat(tpinv)} '
               f'{fvec(d)} {fvec(t)} {fbits(p)}', 'implicit_inverse[blockwise]', inp, exp, 'col')
       ctx.expect(np.array_equal(np.asarray(inv_state.vorticity), np.asarray(state.vorticity)) and
@@ -262,12 +258,17 @@ def run(ctx: common.Ctx):
 
   outs = ctx.model(lines)
   col_worst = {}
+  op_count = {}
   for (op, inp, impl, kind), o in zip(checks, outs):
+    op_count[op] = op_count.get(op, 0) + 1
     if o in ('bad-op', 'value-error'):
       ctx.corr_mismatch(op, inp, 'impl ok', o, 'model rejected the operation')
       continue
     if kind == 'mat':
-      ctx.corr_float(op, inp, np.asarray(impl), np.asarray(unfmat(o)))
+      a_, b_ = np.asarray(impl, dtype=float), np.asarray(unfmat(o), dtype=float)
+      if a_.shape == b_.shape and np.isfinite(a_).all() and np.isfinite(b_).all() and np.abs(a_).max() > 0:
+        col_worst[op] = max(col_worst.get(op, 0.0), float(np.abs(a_ - b_).max() / np.abs(a_).max()))
+      ctx.corr_float(op, inp, a_, b_)
     elif kind == 'col':
       d, t, p = _parse_col(o)
       a_ = np.concatenate([impl[0], impl[1], [impl[2]]])
@@ -278,8 +279,14 @@ def run(ctx: common.Ctx):
     else:
       ctx.corr_float(op, inp, impl, unfvec(o))
 
-  ctx.notes.append('worst relative deviation model vs code on column outputs (tolerance %g): ' % TOL +
-                   ', '.join(f'{k}={v:.2e}' for k, v in sorted(col_worst.items())))
+  ctx.notes.append('worst relative deviation model vs code per op, column outputs and the matrices handed to '
+                   'numpy.linalg.inv by method=blockwise (tolerance %g; n = comparisons): ' % TOL +
+                   ', '.join(f'{k}={v:.2e} (n={op_count.get(k, 0)})' for k, v in sorted(col_worst.items())))
+  n_bm = {w: op_count.get(f'implicit_inverse[blockwise].inverted-matrix[{w}]', 0) for w in ('div', 'tp')}
+  ctx.obligation('the matrices captured from numpy.linalg.inv under method=blockwise were compared with the model '
+                 'matrices blockwiseDivMatrix / blockwiseTpMatrix (hypotheses of blockwise_is_resolvent)',
+                 'correspondence-coverage', min(n_bm.values()) >= 1,
+                 f'comparisons: div={n_bm["div"]}, tp={n_bm["tp"]}')
   if os.environ.get('C03_VERBOSE'):
     print('col_worst', col_worst)
   if not ctx.quick:
